@@ -8,7 +8,8 @@ META = {
                   "add an alarm, raise ExitMainLoop, raise ValueError); at most 6 (quick) / 8 (thorough) loop iterations",
         "clock": "time.time() is a symbolic non-decreasing real; select(timeout) returns a solver-chosen ready subset after a solver-chosen wait <= timeout (exactly timeout when nothing is ready)",
     },
-    "outside": ["asyncio, tornado, twisted, trio, glib and zmq adapters (their reactors cannot run on symbolic time; an unvalidated stub would prove little)",
+    "outside": ["asyncio, tornado, twisted, trio and zmq adapters under a symbolic clock (their reactors cannot run on symbolic time); they are covered on the real clock by the "
+                "real.* instances: 3 alarms 30 ms apart in every order, one pipe, one idle callback, catalogued callback behaviours, tolerance 3 ms", "glib loop (gi not installed)",
                 "more than 3 alarms / 2 descriptors / 8 iterations", "signals, executors"],
     "stubs": ["select_loop.time -> symbolic clock", "select_loop.selectors -> scripted selector"],
     "assumptions": [],
@@ -33,7 +34,163 @@ def instances(tier):
         out.append(Instance("watch.%s" % "-".join(wb), "h_sched", {"alarms": ["plain"], "watches": wb, "idles": ["plain"], "iters": 5 if q else 7}, timeout=900))
     for ib in (["plain", "plain"], ["remove_self", "plain"], ["remove_other", "plain"], ["error"], ["exit"]):
         out.append(Instance("idle.%s" % "-".join(ib), "h_sched", {"alarms": ["plain"], "watches": [], "idles": ib, "iters": its}, timeout=600))
+    # the other adapters, on the real clock: schedules are enumerated through the solver, timing is concrete
+    from ._loops import LOOPS
+
+    for lp in LOOPS:
+        out.append(Instance("real.%s" % lp, "h_real", {"loop": lp, "full": not q}, timeout=1800))
     return out
+
+
+REAL_BEH = ["plain", "remove_later", "add_alarm", "exit", "error", "remove_watch", "remove_idle"]
+REAL_WBEH = ["plain", "remove_self", "exit", "error"]
+
+
+def h_real(I, loop, full):
+    """Alarm / watch / idle / exception contract of a real event loop on the real clock (30 ms spacing between events)."""
+    import contextlib
+    import io
+    import itertools
+    import os
+    import time
+
+    import urwid
+
+    from ._loops import make_loop
+
+    D = (0.03, 0.06, 0.09)
+    perm = I.choice("delay_order", list(itertools.permutations(range(3))))
+    beh = I.choice("first_alarm_behaviour", REAL_BEH)
+    if full:
+        pre_remove = I.choice("removed_before_run", [None, 0, 1, 2])
+        wbeh = I.choice("watch_behaviour", REAL_WBEH)
+    else:
+        pre_remove, wbeh = I.choice("variant", [(None, "plain"), (1, "remove_self"), (None, "error"), (2, "exit")])
+    el, close = make_loop(urwid, loop)
+    rfd, wfd = os.pipe()
+    log = []
+    due, handles, removal = {}, {}, []
+    order = sorted(range(3), key=lambda i: D[perm[i]])   # alarm ids by due time
+    alive = [i for i in order if i != pre_remove]
+    first = alive[0]
+    writer = alive[1] if len(alive) > 1 else alive[0]
+    st = {"watch": None, "idle": None, "watch_removed_at": None, "idle_removed_at": None, "written_at": None, "extra": None}
+
+    def mk_alarm(i):
+        def cb():
+            log.append(("alarm", i, time.time()))
+            if i == writer:
+                os.write(wfd, b"x")
+                st["written_at"] = len(log)
+            if i == first:
+                if beh == "remove_later":
+                    later = [j for j in alive if j != i]
+                    if later:
+                        j = later[-1]
+                        removal.append((j, el.remove_alarm(handles[j]), el.remove_alarm(handles[j]), len(log)))
+                elif beh == "add_alarm":
+                    due[9] = time.time() + 0.015
+                    handles[9] = el.alarm(0.015, mk_alarm(9))
+                elif beh == "exit":
+                    raise urwid.ExitMainLoop()
+                elif beh == "error":
+                    raise ValueError("boom")
+                elif beh == "remove_watch":
+                    st["watch_removed_at"] = (el.remove_watch_file(st["watch"]), el.remove_watch_file(st["watch"]), len(log))
+                elif beh == "remove_idle":
+                    st["idle_removed_at"] = (el.remove_enter_idle(st["idle"]), el.remove_enter_idle(st["idle"]), len(log))
+        return cb
+
+    def watch_cb():
+        try:
+            os.read(rfd, 1)
+        except OSError:
+            pass
+        log.append(("watch", time.time()))
+        if wbeh == "remove_self":
+            st["watch_removed_at"] = (el.remove_watch_file(st["watch"]), el.remove_watch_file(st["watch"]), len(log))
+        elif wbeh == "exit":
+            raise urwid.ExitMainLoop()
+        elif wbeh == "error":
+            raise ValueError("boom")
+
+    def idle_cb():
+        log.append(("idle", time.time()))
+
+    def terminator():
+        log.append(("end", time.time()))
+        raise urwid.ExitMainLoop()
+
+    raised = []
+    returned = False
+    try:
+        t0 = time.time()
+        for i in range(3):
+            due[i] = t0 + D[perm[i]]
+            handles[i] = el.alarm(D[perm[i]], mk_alarm(i))
+        el.alarm(0.15, terminator)
+        if pre_remove is not None:
+            removal.append((pre_remove, el.remove_alarm(handles[pre_remove]), el.remove_alarm(handles[pre_remove]), 0))
+        st["watch"] = el.watch_file(rfd, watch_cb)
+        st["idle"] = el.enter_idle(idle_cb)
+        try:
+            with contextlib.redirect_stdout(io.StringIO()):
+                el.run()
+            returned = True
+        except ValueError as e:
+            raised.append(e)
+    finally:
+        for fd in (rfd, wfd):
+            try:
+                os.close(fd)
+            except OSError:
+                pass
+        close()
+    I.note("log", [(e[0], e[1] if e[0] == "alarm" else None) for e in log])
+    TOL = 0.003
+    ran = [e for e in log if e[0] == "alarm"]
+    ids = [e[1] for e in ran]
+    I.check("alarm_runs_at_most_once", len(ids) == len(set(ids)))
+    for _k, i, t in ran:
+        I.check("alarm_not_before_due", t >= due[i] - TOL, info=(i, t - due[i]))
+    I.check("alarms_in_due_order", all(due[ids[a]] <= due[ids[a + 1]] + TOL for a in range(len(ids) - 1)), info=ids)
+    stops_at_first = beh in ("exit", "error")
+    watch_stops = wbeh in ("exit", "error")
+    expected_error = (beh == "error") or (wbeh == "error" and not stops_at_first and beh != "remove_watch")
+    for j, r1, r2, idx in removal:
+        I.check("removal_reports_success", r1 is True)
+        I.check("second_removal_reports_failure", r2 is False)
+        I.check("removed_alarm_never_runs", all(not (e[0] == "alarm" and e[1] == j) for e in log[idx:]))
+    if not stops_at_first:
+        removed = {j for j, *_ in removal}
+        must_run = [i for i in alive if i not in removed]
+        if not (watch_stops and beh != "remove_watch"):
+            I.check("every_pending_alarm_ran", all(i in ids for i in must_run) and (beh != "add_alarm" or 9 in ids), info=ids)
+    else:
+        I.check("loop_stops_at_the_raising_callback", ids == [first] and not any(e[0] == "end" for e in log), info=ids)
+    if st["watch_removed_at"] is not None:
+        r1, r2, idx = st["watch_removed_at"]
+        I.check("watch_removal_reports_success_then_failure", r1 is True and r2 is False)
+        I.check("watch_never_runs_after_removal", all(e[0] != "watch" for e in log[idx:]))
+    elif st["written_at"] is not None and not stops_at_first:
+        I.check("readable_watch_runs", any(e[0] == "watch" for e in log[st["written_at"]:]))
+    I.check("watch_not_before_readable", all(e[0] != "watch" for e in log[: st["written_at"] or len(log)]))
+    if st["idle_removed_at"] is not None:
+        r1, r2, idx = st["idle_removed_at"]
+        I.check("idle_removal_reports_success_then_failure", r1 is True and r2 is False)
+        I.check("removed_idle_not_called_again", all(e[0] != "idle" for e in log[idx:]))
+    else:
+        # between two callbacks that are >= 15 ms apart the loop went quiescent: the idle callbacks ran in between
+        evs = [(n, e) for n, e in enumerate(log) if e[0] in ("alarm", "watch", "end")]
+        ok = True
+        for (n1, e1), (n2, e2) in zip(evs, evs[1:]):
+            if e2[-1] - e1[-1] >= 0.015 and not any(x[0] == "idle" for x in log[n1 + 1: n2]):
+                ok = False
+        I.check("idle_runs_before_the_loop_goes_quiescent", ok)
+    if expected_error:
+        I.check("error_reraised_exactly_once", len(raised) == 1 and not returned)
+    else:
+        I.check("exit_main_loop_is_silent", returned and not raised)
 
 
 def h_sched(I, alarms, watches, idles, iters, pre_remove=None):
